@@ -12,7 +12,7 @@ RULE = ('Stateless exploration of the REAL Controller/ComponentState/Engine/Repe
         'over {shutdown-listed, unrecoverable, restartable}) + duration scenarios (long-running siblings, exits inside the 25 s '
         'stability wait, slowly draining stages). Every scenario runs on the canonical fair schedule; ALL schedules with <=1 '
         'deviation (a younger activity first, a task exiting early, a timer firing early) for chain2, pair, observer and one '
-        'seed-rotated scenario (thorough: every single-fault scenario); all 1-deviation schedules at boundary actions for the '
+        'seed-rotated scenario (thorough: every single-fault scenario of chain2, pair, fanin, xstage, observer); all 1-deviation schedules at boundary actions for the '
         'two-fault race scenarios; line-level preemption points + stall deviation inside Controller.run / finishedCheck / '
         'ComponentState.finish / postMortemCheck / _schedule / Engine.restart+kill (4 fixed + 2 seed-rotated of 45 combinations; thorough all); '
         'operator pause/wake-up scenarios (Controller.sleep, wake_up) and memoization scenarios (fake component database: hit / fetch '
